@@ -226,11 +226,14 @@ func c08oracle(d c08desc) (claimed string, why string, own bool) {
 func c08exec(c *h.Ctx, cs *h.Case) {
 	outcome := []string{}
 	for _, op := range cs.Ops {
-		if tk := strings.Fields(op); len(tk) > 2 && tk[0] == "c08" && (tk[1] == "honestcert" || tk[1] == "pair") {
+		if tk := strings.Fields(op); len(tk) > 2 && tk[0] == "c08" && (tk[1] == "honestcert" || tk[1] == "pair" || tk[1] == "retry") {
 			var obs, note string
-			if tk[1] == "honestcert" {
+			switch tk[1] {
+			case "honestcert":
 				obs, note = c08honestCert(tk[2:], cs)
-			} else {
+			case "retry":
+				obs, note = c08retry(tk[2:], cs)
+			default:
 				obs, note = c08pair(tk[2:], cs)
 			}
 			cs.Impl = append(cs.Impl, obs)
@@ -596,6 +599,16 @@ func c08gen(c *h.Ctx, yield func(*h.Case)) {
 		d.op, d.cn, d.sig = "a", "new:a", "a/cur/new:a"
 		emit("corpus-uri-vs-cn", d)
 	}
+	// a few fault sequences early (so that they are run on a tree that fails many rows as well)
+	for _, l := range []string{
+		"c08 retry suite=ed tlsv=12 fails=1 first=abort then=badproof",
+		"c08 retry suite=ed tlsv=13 fails=1 first=abort then=otherkey",
+		"c08 retry suite=ed tlsv=12 fails=1 first=badproof then=badproof",
+		"c08 retry suite=ed tlsv=13 fails=1 first=expired then=honest",
+	} {
+		c.Count("class=retry")
+		yield(&h.Case{Class: "retry:early", Ops: []string{l}})
+	}
 	suitesL := []string{"ed", "g1", "g2"}
 	for _, suite := range suitesL {
 		for _, role := range []string{"dial", "accept"} {
@@ -632,6 +645,29 @@ func c08gen(c *h.Ctx, yield func(*h.Case)) {
 		for _, them := range []string{"v", "o", "a"} {
 			c.Count("class=pair")
 			yield(&h.Case{Class: "pair:" + them, Ops: []string{fmt.Sprintf("c08 pair suite=%s them=%s", suite, them)}})
+		}
+	}
+	// fault sequences of the dialling role: the first attempts answered one way, the later ones another
+	kinds := []string{"abort", "badproof", "otherkey", "expired", "honest"}
+	for _, suite := range suitesL {
+		if !c.Thorough() && suite != "ed" {
+			continue
+		}
+		for _, tlsv := range []string{"12", "13"} {
+			for _, first := range kinds[:4] {
+				for _, then := range kinds {
+					for _, fails := range []int{1, 4, 5} {
+						if !c.Thorough() && ((fails == 4 && then != "honest") || (fails == 5 && then != "honest" && first != "abort")) {
+							continue
+						}
+						c.Count("class=retry")
+						yield(&h.Case{Class: "retry:" + first + "-then-" + then, Ops: []string{
+							fmt.Sprintf("c08 retry suite=%s tlsv=%s fails=%d first=%s then=%s", suite, tlsv, fails, first, then)}})
+					}
+				}
+			}
+			c.Count("class=retry")
+			yield(&h.Case{Class: "retry:honest-at-once", Ops: []string{fmt.Sprintf("c08 retry suite=%s tlsv=%s fails=0 first=abort then=honest", suite, tlsv)}})
 		}
 	}
 	// relays for the other suites and TLS 1.3 (thorough)
